@@ -59,15 +59,17 @@ ASSUMPTIONS = [
 # ===================================================================================== generator
 def _edge_design(r, die):
     """A tolerance-edge netlist: one hard module with two rectangles whose gap/overlap is delta * size."""
-    d = r.choice([1e-13, 1e-11, 1e-9, 1e-7, 1e-6, 1e-5, 1e-4])
-    return {"edge": {"delta": d, "sign": r.choice([-1, 1]), "kind": r.choice(["hard_overlap", "stog_gap", "die_sliver", "alloc_overlap"])}}
+    # log-spaced around the tolerances in play (1e-12..1e-11 of a design's own size, up to 1000 times that for another's)
+    d = r.choice([1e-13, 3e-12, 1e-11, 3e-11, 1e-10, 3e-10, 1e-9, 3e-9, 1e-8, 1e-7, 1e-6, 1e-5, 1e-4])
+    return {"edge": {"delta": d, "sign": r.choice([-1, 1]),
+                     "kind": r.choice(["hard_overlap", "stog_gap", "die_sliver", "die_region_outside", "near_equal_regions"])}}
 
 
 def _gen_design_client(r, scale_exp, family):
     die = designs.gen_die(r, family=family, scale_exp=scale_exp)
     terminals = r.chance(0.3)
     nl = designs.gen_netlist(r, die, allow_terminals=terminals, need_centers=True)
-    edge = _edge_design(r, die)["edge"] if r.chance(0.35) else None
+    edge = _edge_design(r, die)["edge"] if r.chance(0.45) else None
     ops = []
     via = lambda: r.weighted([("tree", 3), ("text", 2), ("file", 2)])
     ops.append({"op": "load_net", "via": via()})
@@ -114,6 +116,8 @@ def _gen_design_client(r, scale_exp, family):
             ops.append({"op": "strop", "matrix": _gen_matrix(r)})
     if any(o["op"] == "legal_model" for o in ops) and r.chance(0.7):
         ops.append({"op": "legal_verdicts"})
+    if edge and edge["kind"] == "near_equal_regions":
+        ops.insert(2 if have_die else 1, {"op": "split", "r": r.choice([2, 3]), "n": r.randint(3, 5)})
     return {"kind": "design", "die": die, "net": nl, "edge": edge, "ops": ops}
 
 
@@ -249,6 +253,13 @@ def gen_case(r, index, tier):
         pos[c] += 1
         if pos[c] >= len(clients[c]["ops"]):
             live.remove(c)
+    # scale mix with a definite order: now and then the largest design of the run does its loading and region
+    # decomposition before anybody else starts (first-come process-wide state is then set by the large design)
+    ds = [i for i, c in enumerate(clients) if c["kind"] == "design"]
+    if len(ds) >= 2 and r.chance(0.4):
+        big = max(ds, key=lambda i: (clients[i]["die"]["scale_exp"], clients[i]["die"]["nx"]))
+        head = [st for st in sched if st[0] == big][:3]
+        sched = head + [st for st in sched if st not in head]
     faults = []
     if r.chance(0.2):
         cands = [i for i, (c, k) in enumerate(sched) if clients[c]["kind"] in ("design", "sat")]
@@ -377,10 +388,19 @@ def _edge_tree(c, co):
 
 def _die_edge_tree(c, co):
     e = c["edge"]
-    if e is None or e["kind"] != "die_sliver":
+    if e is None or e["kind"] not in ("die_sliver", "die_region_outside", "near_equal_regions"):
         return None
     W, H = co.f(c["die"]["nx"]), co.f(c["die"]["ny"])
     d = e["delta"] * W
+    if e["kind"] == "die_region_outside":
+        # a blockage on the right border that sticks out of the die by d (sign > 0) or stops d short of it
+        return {"width": W, "height": H, "regions": [[W - W / 8 + d * e["sign"] / 2, H / 2, W / 4 + d * e["sign"], H, "#"]]}
+    if e["kind"] == "near_equal_regions":
+        # a thin blockage column splits the die into two ground regions whose widths differ by a relative 10*delta..
+        rel = min(1e-3, max(1e-6, e["delta"] * 10))
+        w1 = (W - W / 16) / (2 + rel)
+        w2 = w1 * (1 + rel)
+        return {"width": W, "height": H, "regions": [[w1 + W / 32, H / 2, W / 16, H, "#"]]} if abs(w1 + W / 16 + w2 - W) < 1e-9 * W else None
     # two blockages whose facing sides are d apart (sign>0: sliver of ground between them; sign<0: overlap)
     return {"width": W, "height": H, "regions": [[W / 4, H / 2, W / 2, H, "#"], [W / 2 + W / 8 + d * e["sign"], H / 2, W / 4, H, "#"]]}
 
